@@ -310,29 +310,33 @@ Lemma varint_enc_bytes_ok x : bytes_ok (varint_enc x) = true.
 Proof. apply varint_enc_fuel_bytes_ok. Qed.
 
 (* the raw decoder inverts the encoder, whatever follows *)
+Lemma varint_enc_fuel_S k x :
+  varint_enc_fuel (S k) x = if x <? 128 then [x] else (x mod 128 + 128) :: varint_enc_fuel k (x / 128).
+Proof. reflexivity. Qed.
+
+Lemma varint_raw_cons k shift acc x r :
+  varint_raw (S k) shift acc (x :: r) =
+  if x <? 128 then Some (acc + (x mod 128) * 2 ^ shift, r)
+  else varint_raw k (shift + 7) (acc + (x mod 128) * 2 ^ shift) r.
+Proof. reflexivity. Qed.
+
 Lemma varint_raw_enc_fuel f : forall x k shift acc rest,
   x < 128 ^ N.of_nat (S f) -> (S f <= k)%nat ->
   varint_raw k shift acc (varint_enc_fuel (S f) x ++ rest) = Some (acc + x * 2 ^ shift, rest).
 Proof.
   induction f as [|f IH]; intros x k shift acc rest Hx Hk;
-    (destruct k as [|k]; [lia|]); cbn [varint_enc_fuel].
+    (destruct k as [|k]; [lia|]); rewrite varint_enc_fuel_S.
   - assert (x < 128) by (cbn in Hx; lia).
     destruct (x <? 128) eqn:E; [|apply N.ltb_ge in E; lia].
-    cbn [app varint_raw]. rewrite E. rewrite N.mod_small by assumption. reflexivity.
+    cbn [app]. rewrite varint_raw_cons, E. rewrite N.mod_small by assumption. reflexivity.
   - destruct (x <? 128) eqn:E.
-    + apply N.ltb_lt in E. cbn [app varint_raw].
-      destruct (x <? 128) eqn:E2; [|apply N.ltb_ge in E2; lia].
+    + cbn [app]. rewrite varint_raw_cons, E. apply N.ltb_lt in E.
       rewrite N.mod_small by assumption. reflexivity.
-    + apply N.ltb_ge in E.
-      change ((x mod 128 + 128 :: varint_enc_fuel (S f) (x / 128)) ++ rest)
-        with (x mod 128 + 128 :: (varint_enc_fuel (S f) (x / 128) ++ rest)).
-      cbn [varint_raw].
-      pose proof (N.mod_lt x 128 ltac:(lia)) as Hm.
+    + apply N.ltb_ge in E. rewrite <- app_comm_cons, varint_raw_cons.
       destruct (x mod 128 + 128 <? 128) eqn:E2; [apply N.ltb_lt in E2; lia|].
       rewrite IH.
       * f_equal. f_equal.
-        replace ((x mod 128 + 128) mod 128) with (x mod 128).
-        2:{ rewrite <- (N.mul_1_l 128) at 2. rewrite N.mod_add by lia. rewrite N.mod_mod by lia. reflexivity. }
+        replace ((x mod 128 + 128) mod 128) with (x mod 128) by lia.
         rewrite N.pow_add_r. change (2 ^ 7) with 128.
         pose proof (N.div_mod x 128 ltac:(lia)) as D. nia.
       * rewrite pow128_succ in Hx. apply N.div_lt_upper_bound; lia.
@@ -706,7 +710,7 @@ Proof.
   apply tag_dec_shorter in T.
   destruct (t2 =? 4).
   - destruct (n2 =? num); [|discriminate]. inversion H; subst. assumption.
-  - destruct (skipv n2 t2 b1) as [b2|] eqn:S; [|discriminate]. apply Hs in S. apply IH in H. lia.
+  - destruct (skipv n2 t2 b1) as [b2|] eqn:Sk; [|discriminate]. apply Hs in Sk. apply IH in H. lia.
 Qed.
 
 Lemma skip_value_pw_shorter d : forall num typ b r, skip_value_pw d num typ b = Some r -> (length r <= length b)%nat.
@@ -722,20 +726,25 @@ Lemma skip_field_pw_shorter num typ b r : skip_field_pw num typ b = Some r -> (l
 Proof. apply skip_value_pw_shorter. Qed.
 
 (* the group loop's fuel (number of bytes) is never what stops it *)
-Lemma group_loop_pw_fuel skipv num
-  (Hs : forall n t b r, skipv n t b = Some r -> (length r <= length b)%nat) k :
-  forall b, (length b <= k)%nat -> group_loop_pw skipv num k b = group_loop_pw skipv num (length b) b.
+Lemma group_loop_pw_fuel2 skipv num
+  (Hs : forall n t b r, skipv n t b = Some r -> (length r <= length b)%nat) k1 :
+  forall k2 b, (length b <= k1)%nat -> (length b <= k2)%nat ->
+  group_loop_pw skipv num k1 b = group_loop_pw skipv num k2 b.
 Proof.
-  induction k as [|k IH]; intros b L.
-  - destruct b; [reflexivity|cbn in L; lia].
-  - destruct b as [|x b']; [reflexivity|]. set (b := x :: b') in *.
-    change (length b) with (S (length b')). cbn [group_loop_pw].
+  induction k1 as [|k1 IH]; intros k2 b L1 L2.
+  - destruct b; [|cbn in L1; lia]. destruct k2; reflexivity.
+  - destruct k2 as [|k2]; [destruct b; [reflexivity|cbn in L2; lia]|].
+    cbn [group_loop_pw].
     destruct (tag_dec b) as [[[n2 t2] b1]|] eqn:T; [|reflexivity].
     apply tag_dec_shorter in T. destruct (t2 =? 4); [reflexivity|].
-    destruct (skipv n2 t2 b1) as [b2|] eqn:S; [|reflexivity]. apply Hs in S.
-    assert (length b = S (length b')) by reflexivity.
-    rewrite (IH b2) by lia. symmetry. apply IH. lia.
+    destruct (skipv n2 t2 b1) as [b2|] eqn:Sk; [|reflexivity]. apply Hs in Sk.
+    apply IH; lia.
 Qed.
+
+Lemma group_loop_pw_fuel skipv num
+  (Hs : forall n t b r, skipv n t b = Some r -> (length r <= length b)%nat) k b :
+  (length b <= k)%nat -> group_loop_pw skipv num k b = group_loop_pw skipv num (length b) b.
+Proof. intros L. apply group_loop_pw_fuel2; [exact Hs|exact L|lia]. Qed.
 
 Example skip_field_pw_group :
   (* field 9 start-group { field 1 varint 5; field 2 group { } } end-group 9, then 7 *)
@@ -758,9 +767,9 @@ Proof.
   - destruct (take_bytes 4 b1) as [[v b2]|] eqn:V; [|discriminate]. intros H; inversion H; subst.
     apply take_bytes_spec in V as [-> _]. rewrite app_length in E. lia.
   - intros H; inversion H; subst. assumption.
+  - destruct (depth =? 0); [discriminate|]. intros H; inversion H; subst. assumption.
   - destruct (bytes_dec_gogo b1) as [[v b2]|] eqn:V; [|discriminate]. intros H; inversion H; subst.
     apply bytes_dec_gogo_shorter in V. lia.
-  - destruct (depth =? 0); [discriminate|]. intros H; inversion H; subst. assumption.
   - destruct (take_bytes 8 b1) as [[v b2]|] eqn:V; [|discriminate]. intros H; inversion H; subst.
     apply take_bytes_spec in V as [-> _]. rewrite app_length in E. lia.
 Qed.
@@ -776,18 +785,21 @@ Qed.
 Lemma skip_gogo_shorter b r : skip_gogo b = Some r -> (length r < length b)%nat.
 Proof. apply skip_loop_gogo_shorter. Qed.
 
-Lemma skip_loop_gogo_fuel k : forall depth b, (length b <= k)%nat ->
-  skip_loop_gogo k depth b = skip_loop_gogo (length b) depth b.
+Lemma skip_loop_gogo_fuel2 k1 : forall k2 depth b, (length b <= k1)%nat -> (length b <= k2)%nat ->
+  skip_loop_gogo k1 depth b = skip_loop_gogo k2 depth b.
 Proof.
-  induction k as [|k IH]; intros depth b L.
-  - destruct b; [reflexivity|cbn in L; lia].
-  - destruct b as [|x b']; [reflexivity|]. set (b := x :: b') in *.
-    change (length b) with (S (length b')). cbn [skip_loop_gogo].
+  induction k1 as [|k1 IH]; intros k2 depth b L1 L2.
+  - destruct b; [|cbn in L1; lia]. destruct k2; reflexivity.
+  - destruct k2 as [|k2]; [destruct b; [reflexivity|cbn in L2; lia]|].
+    cbn [skip_loop_gogo].
     destruct (skip_item_gogo depth b) as [[d' b2]|] eqn:E; [|reflexivity].
     apply skip_item_gogo_shorter in E. destruct (d' =? 0); [reflexivity|].
-    assert (length b = S (length b')) by reflexivity.
-    rewrite (IH d' b2) by lia. symmetry. apply IH. lia.
+    apply IH; lia.
 Qed.
+
+Lemma skip_loop_gogo_fuel k depth b : (length b <= k)%nat ->
+  skip_loop_gogo k depth b = skip_loop_gogo (length b) depth b.
+Proof. intros L. apply skip_loop_gogo_fuel2; [exact L|lia]. Qed.
 
 (* fuel-free unfolding of skipNebula's loop *)
 Definition skip_run_gogo (depth : N) (b : list N) : option (list N) := skip_loop_gogo (length b) depth b.
@@ -830,20 +842,20 @@ Section MsgLoopLemmas.
   Variable step : St -> list N -> option (St * list N).
   Hypothesis step_progress : forall st b st' b', step st b = Some (st', b') -> (length b' < length b)%nat.
 
-  Lemma msg_loop_fuel k : forall st b, (length b <= k)%nat -> msg_loop step k st b = msg_run step st b.
+  Lemma msg_loop_fuel2 k1 : forall k2 st b, (length b <= k1)%nat -> (length b <= k2)%nat ->
+    msg_loop step k1 st b = msg_loop step k2 st b.
   Proof.
-    unfold msg_run. induction k as [|k IH]; intros st b L.
-    - destruct b; [reflexivity|cbn in L; lia].
-    - destruct b as [|x b']; [reflexivity|]. set (b := x :: b') in *.
-      change (length b) with (S (length b')).
-      change (msg_loop step (S k) st b) with
-        (match step st b with None => None | Some (st', b2) => msg_loop step k st' b2 end).
-      change (msg_loop step (S (length b')) st b) with
-        (match step st b with None => None | Some (st', b2) => msg_loop step (length b') st' b2 end).
-      destruct (step st b) as [[st' b2]|] eqn:E; [|reflexivity].
-      apply step_progress in E. change (length b) with (S (length b')) in E.
-      rewrite (IH st' b2) by (cbn [length] in L; lia). symmetry. apply IH. lia.
+    induction k1 as [|k1 IH]; intros k2 st b L1 L2.
+    - destruct b; [|cbn in L1; lia]. destruct k2; reflexivity.
+    - destruct b as [|x b']; [destruct k2; reflexivity|].
+      destruct k2 as [|k2]; [cbn in L2; lia|].
+      cbn [msg_loop].
+      destruct (step st (x :: b')) as [[st' b2]|] eqn:E; [|reflexivity].
+      apply step_progress in E. cbn [length] in *. apply IH; lia.
   Qed.
+
+  Lemma msg_loop_fuel k st b : (length b <= k)%nat -> msg_loop step k st b = msg_run step st b.
+  Proof. intros L. unfold msg_run. apply msg_loop_fuel2; [exact L|lia]. Qed.
 
   Lemma msg_run_nil st : msg_run step st [] = Some st.
   Proof. reflexivity. Qed.
